@@ -31,6 +31,9 @@ def paired_cfgs(tier, seed):
         objs = ["asym", "plateau", "negative"] + (["huge", "ties", "onemax" if cn not in T.FLOAT else "sphere"] if tier == "thorough" else [])
         for j, o in enumerate(objs):
             out.append((cn, dict(base, objective=o, elitism=(j % 2 == 0), seed=seed * 50 + j, g2p=(j == 2))))
+        if cn not in T.GP:
+            # an objective that hands back a view of the array it was given
+            out.append((cn, dict(base, objective="view", elitism=True, seed=seed * 50 + 30)))
         # stopping: optimal_value v / -v with an error margin, and stagnation
         if cn in T.BINARY:
             out.append((cn, dict(base, objective="onemax", optimal_value=2.0, termination_error_value=2.0, iters=15, seed=seed * 50 + 20)))
